@@ -53,8 +53,8 @@ def its_us(unix: float) -> int:
     return int((unix - ITS_EPOCH + CC.LEAP) * 1000) * 1000
 
 
-def perm(sp, mcl):
-    return {"subjectPermissions": sp, "minChainLength": mcl, "chainLengthRange": 0, "eeType": (b"\x00", 1)}
+def perm(sp, mcl, clr=0):
+    return {"subjectPermissions": sp, "minChainLength": mcl, "chainLengthRange": clr, "eeType": (b"\x00", 1)}
 
 
 def explicit(psids):
@@ -176,6 +176,26 @@ def pki() -> PKI:
         p.hand("AT_self", tbs_cert(None, app=gen), None, None)                                     # self-signed ticket
         p.hand("AA_self", tbs_cert("aa", issue=[perm(explicit(gen), 2)]), None, None)              # self-signed "AA"
         p.hand("AT_aaself", tbs_cert(None, app=gen), "AA_self", "AA_self")
+        # ---- several certIssuePermissions groups / several appPermissions entries, in every order (appended last so that
+        # the key material of everything above is unchanged).  AA_n is a genuine *narrow* AA: it may issue PSID 36 and 37 only.
+        E = explicit
+        p.issue("AA_n", tbs_cert("aan", issue=[perm(E([PSID_CAM, PSID_DENM]), 2)]), "R")
+        mg = {   # hand-made with the genuine AA_n key; escalating PSID 139 first / last / in the middle, 'all' mixed in
+            "SUB_mg_first": [perm(E([PSID_GEN]), 1), perm(E([PSID_CAM]), 1, 1)],
+            "SUB_mg_last": [perm(E([PSID_CAM]), 1), perm(E([PSID_GEN]), 2, -1)],
+            "SUB_mg_mid": [perm(E([PSID_CAM]), 1), perm(E([PSID_GEN]), 1, 1), perm(E([PSID_DENM]), 1)],
+            "SUB_mg_allfirst": [perm(("all", None), 1), perm(E([PSID_CAM]), 1)],
+            "SUB_mg_alllast": [perm(E([PSID_CAM]), 1, 1), perm(("all", None), 2)],
+            "SUB_mg_ok": [perm(E([PSID_CAM]), 1), perm(E([PSID_DENM]), 1, 1)],          # contained: legitimate
+        }
+        for n, groups in mg.items():
+            p.hand(n, tbs_cert(n.lower(), app=[PSID_CAM], issue=groups), "AA_n", "AA_n")
+        for n in ("first", "last", "mid"):
+            p.hand(f"AT_mg139_{n}", tbs_cert(None, app=[PSID_GEN]), f"SUB_mg_{n}", f"SUB_mg_{n}")
+        p.hand("AT_mgok", tbs_cert(None, app=[PSID_DENM, PSID_CAM]), "SUB_mg_ok", "SUB_mg_ok")
+        p.hand("AT_app_first", tbs_cert(None, app=[PSID_GEN, PSID_CAM]), "AA_n", "AA_n")
+        p.hand("AT_app_last", tbs_cert(None, app=[PSID_CAM, PSID_GEN]), "AA_n", "AA_n")
+        p.hand("AT_app_mid", tbs_cert(None, app=[PSID_CAM, PSID_GEN, PSID_DENM]), "AA_n", "AA_n")
     finally:
         ENV.urandom_state = prev
     _PKI = p
